@@ -50,6 +50,9 @@ func c16check(v *sym.V, which, d int, obs bool) {
 		v.Observe("frame", fn)
 	}
 	v.Assert("frame@"+ent.Name, fn == c16Funcs[d])
+	if sym.Contains(ent.Name, "stacked") {
+		return // the innermost recorded source is the one of the already stacked cause
+	}
 	_, _, sfn, ok := errors.GetOneLineSource(err)
 	if obs {
 		v.Observe("source", fmt.Sprint(sfn, ok))
